@@ -239,6 +239,40 @@ def run(chk):
                     if isinstance(r1, bytes) and r1 != r2:
                         chk.violation("repeated-export-differs", dict(desc))
             chk.sample(dict(cls=cls, queries=ok_names[:12], npairs=len(pairs)))
+            if unit == 1.0:
+                returned_objects(chk, cls, tilt, opp)
+
+
+def returned_objects(chk, cls, tilt, opp):
+    """A query that answers with a shape object (the balls, circles, ...) hands out an object of the caller's: resizing or moving it
+    afterwards neither changes the queried shape nor the answer to the same query asked again.  (The `.polygon` / `.polyhedron` accessors of
+    the rounded shapes are the shape's own core, by documentation: not included.)"""
+    import coxeter
+
+    proto, _ = Z.make(cls, tilt=tilt, opposing=opp)
+    for name in Z.properties_of(proto):
+        if name in Z.DEPRECATED or name in ("polygon", "polyhedron"):
+            continue
+        obj, _ = Z.make(cls, tilt=tilt, opposing=opp)
+        st, got = C.excname(getattr, obj, name)
+        if st != "ok" or not isinstance(got, coxeter.shapes.base_classes.Shape):
+            continue
+        first = Z.canon(got)
+        snap = Z.state_snapshot(obj)
+        for attr, fn in (("radius", lambda v: 1.25 * float(v)), ("a", lambda v: 1.5 * float(v)), ("centroid", lambda v: np.asarray(v, float) + 1.0)):
+            if hasattr(type(got), attr):
+                C.excname(lambda: setattr(got, attr, fn(getattr(got, attr))))
+        chk.case([cls, "returned-object", name], True)
+        chk.count("returned-object-modified")
+        desc = dict(cls=cls, query=name, tilted=tilt)
+        same, why = Z.snapshots_equal(snap, Z.state_snapshot(obj))
+        if not same or got is obj:
+            chk.violation("returned-object-is-the-shape's-own", dict(desc, attribute=why if not same else "the query returned the shape itself",
+                                                                     what="modifying the object a query returned changed the queried shape")); continue
+        st2, again = C.excname(getattr, obj, name)
+        if st2 != "ok" or not Z.values_close(Z.canon(again), first, 1e-9, 0) and not name.startswith("minimal_bounding"):
+            chk.violation("returned-object-is-the-shape's-own", dict(desc, first=str(first)[:160], again=str(Z.canon(again) if st2 == "ok" else st2)[:160],
+                                                                     what="the same query answers differently after the object it returned earlier was modified"))
 
 
 def replay(chk, rep):
